@@ -1,5 +1,6 @@
 mod c01;
 mod c03;
+mod c06;
 mod c245;
 mod refstep;
 mod harness;
@@ -19,6 +20,7 @@ fn main() {
     match id.as_str() {
         "C01" => c01::main(Report::from_args("model_checking")),
         "C03" => c03::main(Report::from_args("model_checking")),
+        "C06" => c06::main(Report::from_args("model_checking")),
         "C02" => c245::main_c02(Report::from_args("exploration")),
         "C04" => c245::main_c04(Report::from_args("exploration")),
         "C05" => c245::main_c05(Report::from_args("exploration")),
